@@ -46,4 +46,18 @@ def _session_ops(rep):
     return bool(res["rejected"])
 
 
-REPLAYERS = {"session_ops": _session_ops, "errorclass_case": _errorclass_case, "errorclass_sets": _errorclass_sets}
+def _dispatch_case(rep):
+    from harness.props import dispatch
+    from harness.drivers import server_drv
+    names = server_drv.std_notification_names()
+    tmod = gen.write_module("MC_ServerDispatchTrace", ["ServerDispatchTrace"], {"GenStdNotifs": set(names)})
+    recs = server_drv.run_dispatch_cases([rep["case"]])
+    print(json.dumps(recs))
+    consts = dict(dispatch.TREE)
+    consts["StdNotifs"] = ("<-", "GenStdNotifs")
+    res = validate.validate(tmod, recs, consts, work=os.path.join(tlc.WORK, "replay_sd"), jobs=1)
+    print("failed clauses:", res["failed"])
+    return rep["clause"] in res["failed"].get(0, [])
+
+
+REPLAYERS = {"dispatch_case": _dispatch_case, "session_ops": _session_ops, "errorclass_case": _errorclass_case, "errorclass_sets": _errorclass_sets}
